@@ -222,14 +222,19 @@ def _strip_ops(parse: FuncInfo) -> Optional[list[tuple[str, object]]]:
 def rule_lens(ctx: RuleContext, p: Program, g: rx.Grammar, rid: str) -> None:
     ctx.rule(rid, 'for token classes whose _format_value is <prefix> + f(value) + <suffix>: _parse_value removes exactly that '
                   'prefix and suffix (nothing more), and the terminal\'s language starts/ends with them')
-    n = 0
+    n = delegated = 0
     for c in p.registered('token_model'):
         fmt = c.attrs.get('_format_value')
         prs = c.attrs.get('_parse_value')
         if not isinstance(fmt, FuncInfo) or not isinstance(prs, FuncInfo) or len(fmt.params) != 2:
             continue
         aff = _affixes(fmt)
-        if aff is None or (aff[0] == '' and aff[1] == ''):
+        if aff is None:
+            ann = norm(fmt.node.args.args[1].annotation) if fmt.node.args.args[1].annotation else ''
+            if ann == 'str' and c.name not in ('EscapedString', 'BlockComment'):
+                delegated += 1            # not of the one-f-string shape: TOK-RT evaluates this pair on concrete texts instead
+            continue
+        if aff[0] == '' and aff[1] == '':
             continue
         prefix, suffix, mid = aff
         ops = _strip_ops(prs)
@@ -279,7 +284,7 @@ def rule_lens(ctx: RuleContext, p: Program, g: rx.Grammar, rid: str) -> None:
         for pr in problems or ['']:
             ctx.check(not pr, rid, site, pr.split(':')[0] if pr else f'prefix {prefix!r} suffix {suffix!r}', pr, prs.where,
                       note=f'adds and removes prefix {prefix!r} / suffix {suffix!r}')
-    if n < 5:
+    if n + delegated < 5:
         raise AnalysisError(f'LENS: only {n} prefix/suffix token classes found (5 confirmed by hand)')
 
 
@@ -619,6 +624,7 @@ def run(ctx: RuleContext, p: Program) -> None:
     ctx.try_rule(rule_lens, p, g, 'LENS')
     ctx.try_rule(rule_bc_spaced, p, g, 'BC-SPACED')
     ctx.try_rule(rule_bc_rt, p, g, 'BC-RT')
+    ctx.try_rule(rule_tok_rt, p, g, 'TOK-RT')
     from . import bcline
     ctx.try_rule(bcline.rule_bc_line, p, 'BC-LINE')
     ctx.try_rule(rule_fmt_lang, p, g, 'FMT-LANG')
@@ -1099,3 +1105,109 @@ def rule_bc_rt(ctx: RuleContext, p: Program, g: rx.Grammar, rid: str) -> None:
         raise AnalysisError(f'BC-RT: only {n} (value, indent) pairs evaluated')
     ctx.check(problem is None, rid, 'models.block_comment:BlockComment._format_value / _parse_value', 'parse(format(indent, value)) == (indent, value)',
               problem or '', fv.where, note=f'{n} (value, indent) pairs')
+
+
+# ----------------------------------------------------------------------------- TOK-RT
+_TOK_RT_VALUES: list[tuple[str, str]] = [
+    # (category, value).  The category is the construct of the finding: a new failing category is a new finding.
+    ('empty', ''), ('plain', 'x'), ('plain', 'x y'), ('plain', 'abc'), ('plain', 'Abc'), ('plain', 'a-b_c/d.e'), ('plain', 'ab-c_d'),
+    ('plain', 'txn'), ('plain', '*'), ('plain', '!'), ('plain', 'P'), ('plain', 'TRUE'), ('plain', 'USD'), ('plain', 'Assets:Foo'),
+    ('leading blank', ' x'), ('leading blank', '  x'), ('trailing blank', 'x '), ('inner blanks', 'x  y'), ('tab', '\tx'), ('tab', 'x\ty'),
+    ('leading semicolon', ';x'), ('leading semicolon', '; x'), ('leading semicolon', ';'), ('leading semicolon', ';;x'), ('inner semicolon', 'x;y'),
+    ('leading marker', '#x'), ('leading marker', '^x'), ('leading marker', '##x'), ('leading marker', '^^x'), ('trailing colon', 'x:'),
+    ('trailing colon', 'ab:'), ('quote', 'a"b'), ('backslash', 'a\\b'), ('backslash', 'a\\nb'),
+    ('unicode line boundary', 'a\x0bb'), ('unicode line boundary', 'a\x0cb'), ('unicode line boundary', 'a\x1cb'), ('unicode line boundary', 'a\x1db'),
+    ('unicode line boundary', 'a\x1eb'), ('unicode line boundary', 'a\x85b'), ('unicode line boundary', 'a b'), ('unicode line boundary', 'a b'),
+    ('unicode line boundary', 'a '), ('non-ascii', '\xe9t\xe9'), ('non-ascii', '中文'), ('non-ascii', 'x\xa0y'), ('non-ascii', '　x'),
+    ('case', 'MiXed'), ('case', 'lower'), ('case', 'UPPER'), ('digits', '0123'), ('digits', 'a1'),
+]
+
+
+# texts of the pool that are lexemes of a terminal without being values of the class (one line of reason each)
+_TOK_RT_NOT_A_VALUE = {
+    ('TransactionFlag', 'txn'): "the keyword spelling of the flag '*': a lexeme, never a value (_parse_value maps it to '*')",
+}
+
+
+def rule_tok_rt(ctx: RuleContext, p: Program, g: rx.Grammar, rid: str) -> None:
+    """text-valued token classes: _parse_value(_format_value(v)) == v, both interpreted on concrete texts"""
+    from . import possem
+    from .tokenstore import TS
+    ctx.rule(rid, 'every token class whose value is a text and that spells its own _format_value / _parse_value (EscapedString and BlockComment have '
+                  'their own rules): both functions are interpreted from their ASTs on a pool of %d texts (empty, blanks at either end, tabs, a '
+                  'leading or inner semicolon / marker character, a trailing colon, quote, backslash, the eight characters str.splitlines() breaks '
+                  'at besides CR and LF, non-ASCII, mixed case).  For every v whose written text is a lexeme of the class\'s terminal: the text reads '
+                  'back as exactly v; and for every lexeme written that way, formatting the value read from it gives the lexeme again' % len(_TOK_RT_VALUES))
+    ts = TS(p)
+    n_cls = n_pairs = 0
+    for c in p.registered('token_model'):
+        fmt = c.attrs.get('_format_value')
+        prs = c.attrs.get('_parse_value')
+        if not isinstance(fmt, FuncInfo) or not isinstance(prs, FuncInfo) or len(fmt.params) != 2 or len(prs.params) != 2:
+            continue
+        ann = norm(fmt.node.args.args[1].annotation) if fmt.node.args.args[1].annotation else ''
+        if ann != 'str' or c.name in ('EscapedString', 'BlockComment'):
+            continue
+        rule = p.class_const(c, 'RULE')
+        tname = rule.value if isinstance(rule, ast.Constant) else None
+        if tname not in g.terminals:
+            raise AnalysisError(f'TOK-RT: {c.name}.RULE is not a terminal of the grammar')
+        pat = g.terminals[tname].pattern
+        flags = 0
+        for f in getattr(pat, 'flags', ()) or ():
+            flags |= {'i': re.I, 'm': re.M, 's': re.S, 'x': re.X, 'u': re.U}.get(f, 0)
+        term = re.compile(pat.to_regexp(), flags)
+        n_cls += 1
+        site = f'{c.module.name.split(".", 1)[1]}:{c.name}'
+        clsobj = possem.Obj(c.name + 'Class', {}, 'cls')
+        bad: dict[str, str] = {}
+        n_here = 0
+
+        def run(fn: FuncInfo, arg: str) -> Any:
+            return possem.PosInterp(ts, [], module=c.module).call_function(fn, [clsobj, arg], {})
+
+        for cat, v in _TOK_RT_VALUES:
+            if (c.name, v) in _TOK_RT_NOT_A_VALUE:
+                continue
+            try:
+                raw = run(fmt, v)
+            except possem.Raised:
+                continue                          # a refused value is outside the domain
+            except possem.Unsupported as ex:
+                raise AnalysisError(f'TOK-RT: {site}._format_value cannot be interpreted: {ex}')
+            if not isinstance(raw, str):
+                bad.setdefault(cat, f'_format_value({v!r}) returns {raw!r}, not a text')
+                continue
+            if not term.fullmatch(raw):
+                continue                          # not a lexeme of the terminal: v is outside the domain of this token type (TERM-DOMAIN / FMT-LANG decide the reach)
+            n_here += 1
+            try:
+                back = run(prs, raw)
+            except possem.Raised as ex:
+                bad.setdefault(cat, f'from_value({v!r}) writes {raw!r}, a {tname} lexeme, and _parse_value raises {ex} on it')
+                continue
+            except possem.Unsupported as ex:
+                raise AnalysisError(f'TOK-RT: {site}._parse_value cannot be interpreted: {ex}')
+            if back != v or type(back) is not str:
+                bad.setdefault(cat, f'from_value({v!r}) writes {raw!r}, which is a {tname} lexeme and reads back as {back!r}: the value assigned is not the '
+                                    f'value the document holds')
+                continue
+            try:
+                again = run(fmt, back)
+            except possem.Raised as ex:
+                bad.setdefault(cat, f'_format_value raises {ex} on {back!r}, the value just read from {raw!r}')
+                continue
+            if again != raw:
+                bad.setdefault(cat, f'{raw!r} reads as {back!r}, which is written as {again!r}')
+        n_pairs += n_here
+        if n_here < 3:
+            raise AnalysisError(f'TOK-RT: only {n_here} of the pool values are {tname} lexemes when written by {site}._format_value')
+        if bad:
+            for cat, why in sorted(bad.items()):
+                ctx.check(False, rid, site, f'values with: {cat}', why, fmt.where)
+        else:
+            ctx.check(True, rid, site, 'parse(format(v)) == v', '', fmt.where, note=f'{n_here} in-domain values of the pool')
+    if n_cls < 5:
+        raise AnalysisError(f'TOK-RT: only {n_cls} text-valued token classes with their own format/parse pair found (5 confirmed by hand)')
+    ctx.stats.setdefault('tok_rt', {})['classes'] = n_cls
+    ctx.stats['tok_rt']['pairs'] = n_pairs
